@@ -39,6 +39,41 @@ func TestMain(m *testing.M) {
 	os.Exit(m.Run())
 }
 
+// genTerms draws the terms of one label query (AND): every operator, inverted or not, in any order, on present and missing labels.
+func genTerms(r *rand.Rand) []resource.LabelQueryOption {
+	var out []resource.LabelQueryOption
+
+	for n := 1 + r.IntN(3); n > 0; n-- {
+		key := []string{"n", "n", "size", "missing"}[r.IntN(4)]
+
+		var to []resource.TermOption
+		if r.IntN(2) == 0 {
+			to = append(to, resource.NotMatches)
+		}
+
+		val := []string{"0", "1", "2", "3", "1k", "2Ki", "5", "x"}[r.IntN(8)]
+
+		switch r.IntN(7) {
+		case 0:
+			out = append(out, resource.LabelExists(key, to...))
+		case 1:
+			out = append(out, resource.LabelEqual(key, val, to...))
+		case 2:
+			out = append(out, resource.LabelIn(key, []string{val, "1", "2Ki"}[:1+r.IntN(3)], to...))
+		case 3:
+			out = append(out, resource.LabelLT(key, val, to...))
+		case 4:
+			out = append(out, resource.LabelLTE(key, val, to...))
+		case 5:
+			out = append(out, resource.LabelLTNumeric(key, val, to...))
+		case 6:
+			out = append(out, resource.LabelLTENumeric(key, val, to...))
+		}
+	}
+
+	return out
+}
+
 func TestC11(t *testing.T) {
 	vk.Run(t, "C11", "exploration", func(c *vk.C) {
 		c.Rule("differential: one seeded operation sequence (Create/Update/Destroy/Get/List with label and id queries, Teardown, TeardownAndDestroy incl. blocking ones, finalizer helpers, " +
@@ -286,6 +321,15 @@ func differential(c *vk.C, rng *rand.Rand, k int) {
 					opts = append(opts, state.WithIDQuery(resource.IDRegexpMatch(regexp.MustCompile("^[xy]$"))))
 				case 3:
 					opts = append(opts, state.WithLabelQuery(resource.LabelIn("n", []string{"1", "2"}), resource.LabelLTE("n", "3")))
+				case 4, 5:
+					// generated selectors: 1-2 queries (OR) of 1-3 terms (AND), every operator, inverted or not, in any order
+					for q := 1 + hr.IntN(2); q > 0; q-- {
+						opts = append(opts, state.WithLabelQuery(genTerms(hr)...))
+					}
+
+					if hr.IntN(4) == 0 {
+						opts = append(opts, state.WithIDQuery(resource.IDRegexpMatch(regexp.MustCompile([]string{"^[xy]$", "z", "^.$"}[hr.IntN(3)]))))
+					}
 				}
 
 				list, err := h.st.List(ctx, resource.NewMetadata(ns, res.TypeA, "", resource.VersionUndefined), opts...)
@@ -386,7 +430,11 @@ func differential(c *vk.C, rng *rand.Rand, k int) {
 				case 4:
 					w.ch = make(chan state.Event, 256)
 					label = "watchkind-labelquery"
-					err = h.st.WatchKind(ctx, kind, w.ch, state.WatchWithLabelQuery(resource.LabelLT("n", "3")), state.WithBootstrapContents(hr.IntN(2) == 0))
+					if hr.IntN(2) == 0 {
+						err = h.st.WatchKind(ctx, kind, w.ch, state.WatchWithLabelQuery(resource.LabelLT("n", "3")), state.WithBootstrapContents(hr.IntN(2) == 0))
+					} else {
+						err = h.st.WatchKind(ctx, kind, w.ch, state.WatchWithLabelQuery(genTerms(hr)...), state.WithBootstrapContents(hr.IntN(2) == 0))
+					}
 				case 5:
 					w.ch = make(chan state.Event, 256)
 					label = "watchkind-from-bookmark"
